@@ -827,7 +827,7 @@ def build_catalog():
     def _g2(N):
         return [max(n, 2) for n in N]
 
-    @entry("truediv:multi_element_tensor", False)
+    @entry("truediv:multi_element_tensor", True)
     def _(T, P):
         x = _tt(T, P["N"], P["R1"], P["seed"])
         t = torch.ones(2 + P["aux"] % 3, dtype=torch.float64) * 2.0
@@ -1067,6 +1067,76 @@ def build_catalog():
         x = _tt(T, [2, 3, 4], [1, 2, 2, 1], P["seed"])
         b = _tt(T, [2, 4], [1, 2, 1], P["seed"] + 1)
         return (lambda: T.dot(x, b, [0, 2])), (lambda: T.dot(x, b, [2, 0])), None
+
+
+
+    @entry("function_interpolate:start_wrong_order", False)
+    def _(T, P):
+        N, g = _guess_wrong_order(T, P)
+        x = _tt(T, N, P["R3"], P["seed"])
+        ok = _tt(T, N, P["R3"], P["seed"] + 9)
+        f = lambda v: v * v
+        return (lambda: T.interpolate.function_interpolate(f, x, eps=1e-6, start_tens=ok, nswp=3)), \
+               (lambda: T.interpolate.function_interpolate(f, x, eps=1e-6, start_tens=g, nswp=3)), None
+
+    @entry("dmrg_cross:start_wrong_order", False)
+    def _(T, P):
+        N, g = _guess_wrong_order(T, P)
+        R = P["R3"]
+        if len(N) == 1:
+            # dmrg_cross is a two-site scheme: it has no order-1 path at all (TypeError with or without x_start), so the
+            # valid twin needs two modes
+            N, R = N + [3], [1, 1, 1]
+            g = _tt(T, N + [2], [1, 1, 1, 1], P["seed"] + 9)
+        ok = _tt(T, N, R, P["seed"] + 9)
+        f = lambda I: I.sum(1).to(torch.float64) + 1.0
+        return (lambda: T.interpolate.dmrg_cross(f, list(N), eps=1e-6, x_start=ok, nswp=3)), \
+               (lambda: T.interpolate.dmrg_cross(f, list(N), eps=1e-6, x_start=g, nswp=3)), None
+
+    @entry("amen_mv:x0_wrong_order", False)
+    def _(T, P):
+        N, g = _guess_wrong_order(T, P)
+        A = _tt(T, N, P["R1"], P["seed"], M=N)
+        x = _tt(T, N, P["R2"], P["seed"] + 1)
+        ok = _tt(T, N, P["R3"], P["seed"] + 9)
+        return (lambda: T.amen_mv(A, x, x0=ok, eps=1e-6, nswp=4)), (lambda: T.amen_mv(A, x, x0=g, eps=1e-6, nswp=4)), None
+
+    @entry("apply_mask:numpy_wrong_column_count", False)
+    def _(T, P):
+        x = _tt(T, P["N"], P["R1"], P["seed"])
+        d = len(P["N"])
+        return (lambda: x.apply_mask(np.zeros((2, d), dtype=np.int64))), (lambda: x.apply_mask(np.zeros((2, d + 1), dtype=np.int64))), None
+
+    @entry("constructor:rmax_list_length", False)
+    def _(T, P):
+        N = list(P["N"]) + [2]
+        d = len(N)
+        A = torch.ones(N, dtype=torch.float64)
+        bad = [1] + [3] * d + [1] if P["aux"] % 2 else [1] + [3] * (d - 2) + [1]
+        return (lambda: T.TT(A, rmax=[1] + [3] * (d - 1) + [1])), (lambda: T.TT(A, rmax=bad)), None
+
+    @entry("ranks:zero_rank", False)
+    def _(T, P):
+        N = list(P["N"]) + [2]
+        d = len(N)
+        x = _tt(T, N, P["R1"] + [1], P["seed"])
+        which = P["aux"] % 3
+        if which == 0:
+            return (lambda: x.round(1e-12, 1)), (lambda: x.round(1e-12, 0)), None
+        if which == 1:
+            return (lambda: T.random(N, [1] + [1] * (d - 1) + [1])), (lambda: T.random(N, [1] + [0] * (d - 1) + [1])), None
+        return (lambda: T.random(N, 1)), (lambda: T.random(N, 0)), None
+
+    @entry("option:unknown_value", False)
+    def _(T, P):
+        N = _g2(P["N"])
+        x = _tt(T, N, P["R1"], P["seed"])
+        y = _pos(T, N, P["R3"], P["seed"] + 1)
+        if P["aux"] % 2:
+            A = T.eye(N)
+            return (lambda: T.solvers.amen_solve(A, x, eps=1e-6, nswp=3, use_cpp=False)), \
+                   (lambda: T.solvers.amen_solve(A, x, eps=1e-6, nswp=3, use_cpp=False, trunc_norm="zzz")), None
+        return (lambda: T.elementwise_divide(x, y, eps=1e-6, nswp=6)), (lambda: T.elementwise_divide(x, y, eps=1e-6, nswp=6, preconditioner="zzz")), None
 
 
     return C
